@@ -168,7 +168,7 @@ func (u *controlUnit) handleRunner(ctx *risc.Context, cycle int, runner *risc.In
 		previousRunner.Forwarder = ch
 		previousRunner.ForwardRegister = register
 		runner.Receiver = ch
-		runner.ForwardRegister = register
+		runner.ReceiveRegister = register
 
 		pushed := u.pushRunner(ctx, cycle, runner)
 		if !pushed {
